@@ -1,11 +1,21 @@
 """C10 — Histogram stays well-formed over any history; averaging and output are exact.
 
 Tie T: `write_to_file`'s column tables / selection / label lookup regenerated into Gen/HistWrite.lean.
-Tie C: random operation sequences (all 14 calls + write_to_file) on the real class and on the Lean model,
-compared after every call: shapes and values of all five arrays, edges, and the parsed CSV.
-Search: shape invariant, "admissible calls do not raise", averaging and CSV content checked on the real class
-against independent references.
+Tie C: random *sessions* on ONE long-lived object — all 14 mutating calls interleaved with outputs (write_to_file
+with every column set, the accessors bin_centers / bin_width / bin_bounds_left / bin_bounds_right / bin_boundaries /
+histogram / histogram_raw_counts / standard_error / number_of_histograms) — on the real class and on the Lean model
+(`Core/HistSession.lean`, `trace`).  The real object is touched by NOTHING but the calls of the session (state is
+looked at through plain attribute reads, or not at all until the end), so that a derived quantity the class keeps
+from an earlier output (memoised centres, widths, errors, averages …) is still there when the next output is made;
+every output and the state are compared with the model, which has no hidden state
+(`C10.outputs_depend_on_operations_only`).
+Search: shape invariant, "admissible calls do not raise", averaging, and every output (CSV cells, accessor values)
+checked on the real class against independent references: edges / number of histograms kept by the harness's own
+bookkeeping, array contents read from the attributes right before the call, exact-rational averages; and
+differentially against the same call on an object with the same history of mutating calls that was never asked for
+any output before.
 """
+import copy
 import json
 import math
 import time
@@ -22,6 +32,11 @@ warnings.filterwarnings("ignore")
 
 ARRAYS = ("histograms_", "histograms_raw_count_", "error_", "scaling_", "systematic_error_")
 SHAPE_OPS = {"ah", "ab", "rb", "av", "aw", "ae"}
+# read-only accessors: op ("g", code)
+GETTERS = dict(c="bin_centers", w="bin_width", l="bin_bounds_left", r="bin_bounds_right", b="bin_boundaries",
+               h="histogram", k="histogram_raw_counts", e="standard_error", n="number_of_histograms")
+OUTPUT_OPS = ("wr", "g")
+MODES = ("dense", "attrs", "attrs", "silent", "silent")
 
 
 # ------------------------------------------------------------------ translator (tie T)
@@ -183,11 +198,39 @@ def bookkeep(ref, op):
         return None
     if k == "wr":
         return write_admissible(op, nh)
+    if k == "g":
+        return True
     raise AssertionError(op)
+
+
+def gen_valid_add_bin(rng, ref):
+    """add_bin with arguments that pass the validation; the new edge is not always the midpoint (re-inserting the
+    midpoint of a uniform binning would restore the edge that was just removed)"""
+    i = rng.randint(0, ref.nb)
+    hi = ref.edges[i]
+    if i > 0:
+        lo = ref.edges[i - 1]
+        e = lo + (hi - lo) * rng.choice([0.5, 0.25, 0.75, 0.125, 0.375])
+    else:
+        e = hi - rng.choice([0.5, 1.0, 0.25])
+    return ("ab", i, float(e))
+
+
+def gen_output(rng, ref, wr_only=False):
+    """an output call with admissible arguments"""
+    if wr_only or rng.random() < 0.45:
+        q = rng.random()
+        cols = None if q < 0.4 else (rng.sample(ALL_COLS, rng.randint(1, 8)) if q < 0.9 else
+                                     [rng.choice(ALL_COLS) for _ in range(rng.randint(1, 4))])
+        n = 1 if rng.random() < 0.5 else ref.nh + (rng.randint(0, 1) if rng.random() < 0.2 else 0)
+        return ("wr", cols, [{c: f"h{k}:{c}" for c in ALL_COLS} for k in range(n)], "")
+    return ("g", rng.choice("cccwwlrbhken"))
 
 
 def gen_op(rng, ref):
     nb, nh = ref.nb, ref.nh
+    if rng.random() < 0.12:
+        return ("g", rng.choice("cwlrbhken"))
     r = rng.random()
     if r < 0.16:
         return H.gen_fill(rng, ref.edges) if nb >= 1 else ("f", 0.5, None, "float")
@@ -208,10 +251,7 @@ def gen_op(rng, ref):
     if r < 0.65:
         q = rng.random()
         if q < 0.8 and nb < 6:
-            i = rng.randint(0, nb)
-            hi = ref.edges[i]
-            e = (ref.edges[i - 1] + hi) / 2 if i > 0 else hi - rng.choice([0.5, 1.0, 0.25])
-            return ("ab", i, float(e))
+            return gen_valid_add_bin(rng, ref)
         if q < 0.9:
             return ("ab", rng.choice([-1, nb + 1, nb + 2]), ref.edges[-1] + 1.0)
         i = rng.randint(0, nb)
@@ -251,6 +291,81 @@ def gen_history(rng, max_ops=15):
     return ctor, edges, ops, adms
 
 
+def gen_session(rng, max_blocks=4):
+    """a session on one object built from blocks  <outputs> <mutation> <outputs> <mutation> … <outputs>, where a
+    mutation is one random call (any arguments), a content change, or a round trip that brings a COUNT back to what it
+    was while the content differs: remove_bin+add_bin / add_bin+remove_bin (number of bins), add_histogram … average
+    (number of histograms).  Later output blocks repeat earlier output calls literally."""
+    ctor = H.gen_ctor(rng, max_bins=5)
+    edges = [float(x) for x in make_hist(ctor).bin_edges_]
+    ref = Ref(edges)
+    ops, adms, outs, tags = [], [], [], set()
+
+    def emit(op):
+        adms.append(bookkeep(ref, op))
+        ops.append(op)
+
+    def fill():
+        emit(H.gen_fill(rng, ref.edges) if ref.nb >= 1 else ("f", 0.5, None, "float"))
+
+    def outputs():
+        for _ in range(rng.randint(1, 3)):
+            if outs and rng.random() < 0.4:
+                op = rng.choice(outs)
+            else:
+                op = gen_output(rng, ref)
+                outs.append(op)
+            emit(op)
+
+    for _ in range(rng.randint(0, 3)):
+        fill()
+    if rng.random() < 0.85:
+        outputs()
+    for _ in range(rng.randint(1, max_blocks)):
+        kind = rng.choice(["rebin", "rebin", "hists", "content", "content", "random", "random"])
+        if kind == "rebin" and ref.nb >= 1 and ref.nb <= 6:
+            if ref.nb >= 2 and rng.random() < 0.6:
+                emit(("rb", rng.randrange(ref.nb)))
+                if rng.random() < 0.3:
+                    fill()
+                emit(gen_valid_add_bin(rng, ref))
+            else:
+                emit(gen_valid_add_bin(rng, ref))
+                if rng.random() < 0.3:
+                    fill()
+                emit(("rb", rng.randrange(ref.nb)))
+            tags.add("rebin-same-count")
+        elif kind == "hists" and ref.nh <= 3:
+            emit(("ah",))
+            for _ in range(rng.randint(1, 2)):
+                fill()
+            if rng.random() < 0.3:
+                emit(H.gen_scale(rng, ref.nb))
+            if rng.random() < 0.8:
+                emit(("av",) if rng.random() < 0.5 else
+                     ("aw", [rng.choice([1.0, 2.0, 0.5, 3.0]) for _ in range(ref.nh)], rng.choice(["list", "array"])))
+                tags.add("histograms-round-trip")
+        elif kind == "content":
+            q = rng.random()
+            if q < 0.35:
+                fill()
+            elif q < 0.55:
+                emit(H.gen_scale(rng, ref.nb))
+            elif q < 0.8:
+                emit((rng.choice(["er", "sy"]), [rng.choice([1.0, 0.5, 2.0, 0.25, 3.0, 1.5]) for _ in range(ref.nb)],
+                      rng.choice(["list", "array"])))
+            elif q < 0.93:
+                emit(("se",))
+            else:
+                emit(("md",))
+        else:
+            emit(gen_op(rng, ref))
+        if ref.unknown:
+            break
+        outputs()
+    return ctor, edges, ops, adms, tags
+
+
 def readmit(ctor, ops, adms=None):
     """admissibility flags of a given op list (same independent bookkeeping)"""
     ref = Ref([float(x) for x in make_hist(ctor).bin_edges_])
@@ -263,36 +378,196 @@ def readmit(ctor, ops, adms=None):
     return out
 
 
+# ------------------------------------------------------------------ sessions on the real class / on the model
+def enc_op10(op):
+    return f"g,{op[1]}" if op[0] == "g" else enc_op(op)
+
+
+def enc_sess(edges, ops):
+    return "sess\t" + ";".join(common.f2h(e) for e in edges) + "\t" + "|".join(enc_op10(o) for o in ops)
+
+
+def apply10(h, op):
+    """one call of a session on a real object -> what the caller gets to see (copied at once; the accessors hand out
+    views of the internal arrays); raises what the code raises"""
+    if op[0] == "g":
+        v = getattr(h, GETTERS[op[1]])()
+        if op[1] == "n":
+            return ("num", int(v))
+        a = np.array(v, dtype=float)
+        return ("vec", a.tolist()) if a.ndim == 1 else ("mat", H.arr(a))
+    return apply_op(h, op)
+
+
+def attrs(h):
+    """the state, by plain attribute reads (no method of the object runs)"""
+    return dict(nb=h.number_of_bins_, nh=h.number_of_histograms_, edges=[float(x) for x in h.bin_edges_],
+                hist=H.arr(h.histograms_), raw=H.arr(h.histograms_raw_count_), err=H.arr(h.error_),
+                scal=H.arr(h.scaling_), sys=H.arr(h.systematic_error_))
+
+
+def attempt(h, op):
+    """-> (tag, value)"""
+    try:
+        with np.errstate(all="ignore"):
+            return "ok", apply10(h, op)
+    except Exception as e:  # noqa: BLE001 - the kind is what is compared
+        return "err:" + H.EXC_KIND.get(type(e), type(e).__name__), None
+
+
+def run_session(ctor, ops, mode):
+    """drive one real object through the session.  mode: 'dense' = look at it through every accessor after every call
+    (refreshes whatever the class may memoise), 'attrs' = look at the attributes only, 'silent' = do not look at all.
+    -> ([(tag, value, snapshot | None)], attributes at the end, accessor view at the end)"""
+    h = make_hist(ctor)
+    out = []
+    for op in ops:
+        tag, val = attempt(h, op)
+        snap = H.observe(h) if mode == "dense" else attrs(h) if mode == "attrs" else None
+        out.append((tag, val, snap))
+    return out, attrs(h), H.observe(h)
+
+
+def parse_sess(line):
+    """-> [(tag, value, state)] per call, or None"""
+    if not line.startswith("ok "):
+        return None
+    res = []
+    body = line[3:]
+    for o in (body.split("|") if body else []):
+        if "^" not in o:
+            tag, st = H.parse_obs(o)
+            res.append((tag, None, st))
+            continue
+        out_s, st_s = o.split("^", 1)
+        st = H.parse_obs(st_s)[1]
+        if out_s.startswith("w~"):
+            tag, val = H.parse_obs(out_s)
+        elif out_s.startswith("v~"):
+            tag, val = "ok", ("vec", H._pf(out_s[2:]))
+        elif out_s.startswith("m~"):
+            tag, val = "ok", ("mat", H._parr(out_s[2:]))
+        elif out_s.startswith("n~"):
+            tag, val = "ok", ("num", int(out_s[2:]))
+        else:
+            return None
+        res.append((tag, val, st))
+    return res
+
+
+def cmp_state(rs, ms, exact):
+    if rs["nb"] != ms["nb"] or rs["nh"] != ms["nh"]:
+        return f"(nBins,nHist) {(rs['nb'], rs['nh'])} vs model {(ms['nb'], ms['nh'])}"
+    views = dict(edges=ms["edges"], centers=ms["centers"], widths=ms["widths"], left=ms["edges"][:-1], right=ms["edges"][1:])
+    for k, mv in views.items():
+        if k in rs and not H.vec_eq(rs[k], mv, exact):
+            return f"{k}: {rs[k]} vs model {mv}"
+    for k in ("hist", "raw", "err", "scal", "sys"):
+        if not H.rows_eq(rs[k], ms[k], exact):
+            return f"{k}: shape {rs[k]['shape']} {rs[k]['data']} vs model {ms[k]}"
+    return None
+
+
+def cmp_value(op, rv, mv, exact):
+    if op[0] == "wr":
+        return H.compare_obs(("ok", rv), ("ok", mv), exact)
+    name = GETTERS[op[1]]
+    if rv[0] != mv[0]:
+        return f"{name}() returned a {rv[0]} {rv[1]}, model a {mv[0]} {mv[1]}"
+    ok = (rv[1] == mv[1]) if rv[0] == "num" else H.vec_eq(rv[1], mv[1], exact) if rv[0] == "vec" else \
+        H.rows_eq(rv[1], mv[1], exact)
+    return None if ok else f"{name}() returned {rv[1] if rv[0] != 'mat' else rv[1]['data']}, model {mv[1]}"
+
+
+def compare_session(ctor, ops, answer, mode):
+    """-> (None | description of the first difference, index of the call, real run)"""
+    real, final, final_obs = run_session(ctor, ops, mode)
+    model = parse_sess(answer)
+    if model is None or len(model) != len(ops):
+        return f"driver answered {answer[:200]}", -1, real
+    exact = True
+    for i, (op, (rt, rv, rs), (mt, mv, ms)) in enumerate(zip(ops, real, model)):
+        if op[0] in H.INEXACT_OPS:
+            exact = False
+        d = None
+        if rt != mt:
+            d = f"outcome {rt} vs model {mt}"
+        elif op[0] in OUTPUT_OPS and rt == "ok":
+            d = cmp_value(op, rv, mv, exact)
+        if d is None and rs is not None:
+            d = cmp_state(rs, ms, exact)
+        if d:
+            return f"after call {i} {op[:3]} (observation mode {mode}): {d}", i, real
+    if ops:
+        d = cmp_state(final, model[-1][2], exact) or cmp_state(final_obs, model[-1][2], exact)
+        if d:
+            return f"at the end of the session (observation mode {mode}): {d}", len(ops) - 1, real
+    return None, -1, real
+
+
+def output_patterns(ops, adms):
+    """which of the exposing patterns a session contains"""
+    kinds = [o[0] for o in ops]
+    pats = set()
+    outs = [i for i, k in enumerate(kinds) if k in OUTPUT_OPS and adms[i]]
+    for a in outs:
+        for b in outs:
+            if b <= a:
+                continue
+            mid = [(kinds[j], adms[j]) for j in range(a + 1, b) if kinds[j] not in OUTPUT_OPS]
+            if any(adm is not False for _k, adm in mid):
+                pats.add("output-mutation-output")
+            mk = [k for k, adm in mid if adm]
+            if "rb" in mk and "ab" in mk and mk.count("rb") == mk.count("ab"):
+                pats.add("output-rebin-same-count-output")
+            if "ah" in mk and ({"av", "aw"} & set(mk)):
+                pats.add("output-add-histogram-average-output")
+    return pats
+
+
 # ------------------------------------------------------------------ correspondence (tie C)
 def correspond(ctx):
     rng = ctx.rng
-    ctx.rule = ("random operation sequences (2-15 calls over all 14 methods + write_to_file; admissible and rejected "
-                "arguments: wrong lengths, out-of-range / boundary bin indices, non-monotonic edges, zero-sum weights, "
-                "unknown / repeated / non-prefix column lists, one / per-histogram / too few / incomplete label "
-                "dictionaries) on 1-5 bin uniform and non-uniform binnings, up to 4 histograms; compared after every "
-                "call: shapes + values of histograms_, histograms_raw_count_, error_, scaling_, systematic_error_, edges, "
-                "and the parsed CSV cell by cell; non-trivial = history with a shape-changing call "
-                "(add_histogram/add_bin/remove_bin/average*) followed by a later scale, set_error, fill or write; "
-                "distinct by canonical input")
+    ctx.rule = ("random sessions on ONE object (2-25 calls): all 14 mutating methods + write_to_file (every column set: "
+                "None / subsets / orders / repetitions / unknown) + the 9 read-only accessors, admissible and rejected "
+                "arguments (wrong lengths, out-of-range / boundary bin indices, non-monotonic edges, zero-sum weights, "
+                "one / per-histogram / too few / incomplete label dictionaries), 1-5 bin uniform and non-uniform binnings, "
+                "up to 4 histograms; half of them built as <outputs> <mutation> <outputs> … with count-restoring round "
+                "trips (remove_bin+add_bin, add_bin+remove_bin, add_histogram…average) and literally repeated output "
+                "calls; the real object is touched only by the calls of the session and looked at in one of three ways "
+                "(every accessor after every call / attribute reads only / not at all until the end); compared with the "
+                "model at every call: outcome, file cell by cell, accessor value, shapes + values of the five arrays, "
+                "edges; non-trivial = session with an output, then an accepted mutation, then another output; "
+                "distinct by canonical input + observation mode")
     ctx.assumptions.append("np.delete/np.insert/np.vstack/np.average(axis=0, weights)/np.sum(axis=0) contracts; "
-                           "csv.writer + repr(float) round trip (the CSV is compared after float() parsing)")
+                           "csv.writer + repr(float) round trip (the CSV is compared after float() parsing); reading an "
+                           "attribute of the object runs no code of the class")
     n = ctx.n(250, 5000)
     cases, lines = [], []
-    for _ in range(n):
-        ctor, edges, ops, adms = gen_history(rng)
-        cases.append((ctor, edges, ops, adms))
-        lines.append(enc_case(edges, ops))
+    for j in range(n):
+        if j % 2:
+            ctor, edges, ops, adms, tags = gen_session(rng)
+        else:
+            ctor, edges, ops, adms = gen_history(rng)
+            tags = set()
+        mode = rng.choice(MODES)
+        cases.append((ctor, edges, ops, adms, mode, tags))
+        lines.append(enc_sess(edges, ops))
     outs = common.run_driver("C10", lines)
     ndiff = 0
-    for (ctor, edges, ops, adms), out in zip(cases, outs):
-        diff, at, real, _spec = H.compare_history(ctor, ops, out)
+    for (ctor, edges, ops, adms, mode, tags), out in zip(cases, outs):
+        diff, at, real = compare_session(ctor, ops, out, mode)
         kinds = [o[0] for o in ops]
-        first_shape = next((i for i, k in enumerate(kinds) if k in SHAPE_OPS), None)
-        nontriv = first_shape is not None and any(k in ("sc", "sl", "er", "sy", "f", "fl", "wr", "se") for k in kinds[first_shape + 1:])
-        canon = (tuple(edges), tuple(enc_op(o) for o in ops))
-        ctx.case(canon, nontriv, sample=dict(ctor=jsonable(ctor), ops=jsonable([list(o[:3]) for o in ops])))
-        for o, (t, _) in zip(ops, real):
-            ctx.count(f"op/{o[0]}/{t}")
+        pats = output_patterns(ops, adms)
+        canon = (tuple(edges), tuple(enc_op10(o) for o in ops), mode)
+        ctx.case(canon, "output-mutation-output" in pats,
+                 sample=dict(ctor=jsonable(ctor), ops=jsonable([list(o[:3]) for o in ops]), observation=mode))
+        for o, (t, _v, _s) in zip(ops, real):
+            ctx.count(f"op/{o[0] if o[0] != 'g' else 'g:' + GETTERS[o[1]]}/{t}")
+        ctx.count(f"observation/{mode}")
+        for p_ in pats:
+            ctx.count(f"pattern/{p_}")
+            ctx.count(f"pattern/{p_}/{mode}")
         if any(kinds[i] in ("av", "aw", "ae") and "wr" in kinds[i + 1:] for i in range(len(kinds))):
             ctx.count("pattern/write-after-average")
         if any(kinds[i] in ("ab", "rb") and {"sc", "sl"} & set(kinds[i + 1:]) for i in range(len(kinds))):
@@ -300,8 +575,8 @@ def correspond(ctx):
         if diff:
             ndiff += 1
             if ndiff <= 3:
-                ctx.brk("correspondence-broken", f"Histogram history: {diff}",
-                        case=dict(ctor=jsonable(ctor), ops=jsonable([list(o) for o in ops]), at=at))
+                ctx.brk("correspondence-broken", f"Histogram session: {diff}",
+                        case=dict(ctor=jsonable(ctor), ops=jsonable([list(o) for o in ops]), at=at, observation=mode))
     ctx.cov["histories_differing"] = ndiff
     # exhaustive small scope for the writer: all column subsets of size <= 2 (ordered) on a fixed two-histogram state
     exhaustive_columns(ctx, sizes=(1, 2) if not ctx.thorough else (1, 2, 3))
@@ -357,46 +632,100 @@ OPNAME = dict(f="add_value", fl="add_value", ah="add_histogram", sc="scale_histo
               rb="remove_bin", av="average", aw="average_weighted", ae="average_weighted_by_error", wr="write_to_file")
 
 
-def expected_csv(h, cols, labels):
-    """reference content of the file: by column *name*, from the public getters"""
+def same(a, b):
+    """exact equality of observed values (NaN equals NaN)"""
+    if isinstance(a, float) and isinstance(b, float):
+        return a == b or (a != a and b != b)
+    if isinstance(a, (list, tuple)) and isinstance(b, (list, tuple)):
+        return len(a) == len(b) and all(same(x, y) for x, y in zip(a, b))
+    if isinstance(a, dict) and isinstance(b, dict):
+        return a.keys() == b.keys() and all(same(a[k], b[k]) for k in a)
+    return a == b
+
+
+def tables(edges, nh, snap):
+    """the value of every column for every (histogram, bin): geometry from the harness's own edges, contents from
+    the arrays as they are (attribute snapshot) -> {column: [histogram][bin]} or None when the arrays do not fit"""
+    nb = len(edges) - 1
+    try:
+        geo = {"bin_center": [(edges[i] + edges[i + 1]) / 2.0 for i in range(nb)], "bin_low": list(edges[:-1]),
+               "bin_high": list(edges[1:])}
+        tab = {c: [list(v) for _ in range(nh)] for c, v in geo.items()}
+        for c, a in (("distribution", "hist"), ("stat_err+", "err"), ("stat_err-", "err"), ("sys_err+", "sys"),
+                     ("sys_err-", "sys")):
+            tab[c] = [[float(snap[a]["data"][k][i]) for i in range(nb)] for k in range(nh)]
+        return tab
+    except Exception:  # noqa: BLE001 - ill-shaped arrays are reported by the shape check
+        return None
+
+
+def expected_csv(tab, nh, nb, cols, labels):
+    """reference content of the file: by column *name*"""
     cols = list(ALL_COLS) if cols is None else list(cols)
     blocks = []
-    for k in range(h.number_of_histograms()):
+    for k in range(nh):
         lab = labels[0] if len(labels) == 1 else labels[k]
-        rows = []
-        for i in range(h.number_of_bins_):
-            val = {"bin_center": h.bin_centers()[i], "bin_low": h.bin_bounds_left()[i],
-                   "bin_high": h.bin_bounds_right()[i], "distribution": h.histogram()[k][i],
-                   "stat_err+": h.standard_error()[k][i], "stat_err-": h.standard_error()[k][i],
-                   "sys_err+": h.systematic_error_[k][i], "sys_err-": h.systematic_error_[k][i]}
-            rows.append([float(val[c]) for c in cols])
-        blocks.append(([lab[c] for c in cols], rows))
+        blocks.append(([lab[c] for c in cols], [[float(tab[c][k][i]) for c in cols] for i in range(nb)]))
     return blocks
 
 
+def accessor_reference(code, edges, nh, snap):
+    nb = len(edges) - 1
+    if code == "c":
+        return ("vec", [(edges[i] + edges[i + 1]) / 2.0 for i in range(nb)])
+    if code == "w":
+        return ("vec", [edges[i + 1] - edges[i] for i in range(nb)])
+    if code == "l":
+        return ("vec", list(edges[:-1]))
+    if code == "r":
+        return ("vec", list(edges[1:]))
+    if code == "b":
+        return ("vec", list(edges))
+    if code == "n":
+        return ("num", nh)
+    return ("mat", snap[dict(h="hist", k="raw", e="err")[code]])
+
+
 def oracle_c10(ctor, ops, adms):
-    """-> None | (key, what, detail).  Stops at the first failure of the property."""
+    """-> None | (key, what, detail).  Stops at the first failure of the property.
+
+    `h` is the long-lived object of the session: it sees every call, and nothing else (its state is read from the
+    attributes).  `twin` sees the mutating calls only; whenever the session makes an output the same call is made on
+    a throw-away copy of `twin`, i.e. on an object with the same history of operations that has never been asked for
+    anything."""
     h = make_hist(ctor)
+    twin = make_hist(ctor)
+    ref = Ref([float(x) for x in h.bin_edges_])
+    earlier = []            # references at the earlier outputs of the session (diagnosis: stale value)
     last_shape_op = "constructor"
     for n, (op, adm) in enumerate(zip(ops, adms)):
         k = op[0]
-        name = OPNAME[k]
+        name = OPNAME[k] if k != "g" else GETTERS[op[1]]
         where = dict(op_index=n, op=jsonable(list(op[:3])), after=last_shape_op)
+        ref_ok = not ref.unknown
+        if ref_ok:
+            bookkeep(ref, op)
         pre = None
         if k in ("av", "aw"):
-            pre = (np.array(h.histogram(), dtype=float).copy(), h.number_of_histograms())
-        exp_csv = None
-        if k == "wr" and adm:
+            pre = (np.array(h.histograms_, dtype=float).copy(), h.number_of_histograms_)
+        snap = None
+        if k in OUTPUT_OPS:
             try:
-                exp_csv = expected_csv(h, op[1], op[2])
-            except Exception as e:  # noqa: BLE001
-                return (f"getters-raise-before-write:{type(e).__name__}", f"getters raise {type(e).__name__}: {e}", where)
+                snap = attrs(h)
+            except Exception:  # noqa: BLE001
+                snap = None
+        # ---- the call
+        if k in OUTPUT_OPS:
+            other = copy.deepcopy(twin)
+        else:
+            other = twin
         try:
             with np.errstate(all="ignore"):
-                got = apply_op(h, op)
+                got = apply10(h, op)
             raised = None
         except Exception as e:  # noqa: BLE001
             raised = e
+        otag, oval = attempt(other, op)
         if raised is None and adm is False and k not in ("f", "fl", "wr"):
             return None     # a call the harness expected to be rejected went through: its bookkeeping is void
         if raised is not None and adm:
@@ -413,35 +742,93 @@ def oracle_c10(ctor, ops, adms):
                     f"{sp[0]} has shape {sp[1]}, expected {sp[2]} = (number of histograms, number of bins)", where)
         if k in SHAPE_OPS and raised is None:
             last_shape_op = name
+        if k == "se" and raised is None:
+            # the stat_err columns hold error_; statistical_error() defines it as the square root of the CURRENT content
+            A, E = np.array(h.histograms_, dtype=float), np.array(h.error_, dtype=float)
+            for (kk, j), x in np.ndenumerate(A):
+                want = math.sqrt(x) if x >= 0 else float("nan")
+                if not same(float(E[kk][j]), float(want)):
+                    return ("statistical_error:not-sqrt-of-content",
+                            f"after statistical_error() the error of histogram {kk} bin {j} is {float(E[kk][j])!r}; the content is "
+                            f"{float(x)!r}, its square root {want!r}", where)
         if k in ("av", "aw") and raised is None and adm:
             X, nh0 = pre
             ws = [1.0] * nh0 if k == "av" else [float(w) for w in op[1]]
-            if h.number_of_histograms() != 1:
-                return (f"average:not-one-histogram:{name}", f"{name} left {h.number_of_histograms()} histograms", where)
+            if h.number_of_histograms_ != 1:
+                return (f"average:not-one-histogram:{name}", f"{name} left {h.number_of_histograms_} histograms", where)
             sw = sum(Fraction(w) for w in ws)
             for j in range(X.shape[1]):
                 xs = [Fraction(float(x)) for x in X[:, j]]
                 mean = sum(Fraction(w) * x for w, x in zip(ws, xs)) / sw
                 var = sum(Fraction(w) * (x - mean) ** 2 for w, x in zip(ws, xs)) / sw
-                if not feq(float(h.histogram()[0][j]), float(mean), False):
-                    return (f"average:mean:{name}", f"{name}: bin {j} is {float(h.histogram()[0][j])!r}, the weighted mean is {float(mean)!r}", where)
+                if not feq(float(h.histograms_[0][j]), float(mean), False):
+                    return (f"average:mean:{name}", f"{name}: bin {j} is {float(h.histograms_[0][j])!r}, the weighted mean is {float(mean)!r}", where)
                 std = math.sqrt(var) if var >= 0 else float("nan")
-                got_e = float(h.standard_error()[0][j])
+                got_e = float(h.error_[0][j])
                 if not ((got_e != got_e and std != std) or abs(got_e - std) <= 1e-9 * max(1.0, std)):
-                    return (f"average:error:{name}", f"{name}: error of bin {j} is {float(h.standard_error()[0][j])!r}, the weighted "
+                    return (f"average:error:{name}", f"{name}: error of bin {j} is {float(h.error_[0][j])!r}, the weighted "
                             f"population standard deviation is {std!r}", where)
-        if k == "wr" and raised is None and adm:
-            if len(got) != len(exp_csv):
-                return ("write:blocks", f"write_to_file wrote {len(got)} blocks for {len(exp_csv)} histograms", where)
-            for b, ((gh, gr), (eh, er)) in enumerate(zip(got, exp_csv)):
-                if list(gh) != list(eh):
-                    return ("write:labels", f"write_to_file header of histogram {b} is {gh}, requested labels are {eh}", where)
-                if len(gr) != len(er) or any(len(x) != len(y) or not all(feq(a, c, True) for a, c in zip(x, y)) for x, y in zip(gr, er)):
-                    cols = ALL_COLS if op[1] is None else op[1]
-                    prefix = list(cols) == ALL_COLS[:len(cols)]
+        # ---- outputs against the independent reference
+        if k in OUTPUT_OPS and raised is None and adm and snap is not None:
+            nh = ref.nh if ref_ok else snap["nh"]
+            tab = tables(ref.edges, nh, snap)
+            if k == "wr" and tab is not None:
+                exp_csv = expected_csv(tab, nh, ref.nb, op[1], op[2])
+                if len(got) != len(exp_csv):
+                    return ("write:blocks", f"write_to_file wrote {len(got)} blocks for {len(exp_csv)} histograms", where)
+                cols = list(ALL_COLS if op[1] is None else op[1])
+                for b, ((gh, gr), (eh, er)) in enumerate(zip(got, exp_csv)):
+                    if list(gh) != list(eh):
+                        return ("write:labels", f"write_to_file header of histogram {b} is {gh}, requested labels are {eh}", where)
+                    if len(gr) != len(er) or any(len(x) != len(y) for x, y in zip(gr, er)):
+                        bad = None
+                    else:
+                        bad = [(i, c, x[j]) for i, (x, y) in enumerate(zip(gr, er)) for j, c in enumerate(cols)
+                               if not feq(x[j], y[j], True)]
+                        if not bad:
+                            continue
+                    if bad and all(any(b < len(t_[c]) and i < len(t_[c][b]) and same(float(t_[c][b][i]), float(v))
+                                       for t_ in earlier if isinstance(t_, dict)) for i, c, v in bad):
+                        bcols = [c for c in ALL_COLS if any(c == c2 for _i, c2, _v in bad)]
+                        return ("write:stale:" + "+".join(bcols),
+                                f"write_to_file columns {cols}: rows {gr} but the values belonging to these columns are now {er}; "
+                                f"column(s) {bcols} still hold the values they had at an earlier output of this session",
+                                dict(where, stale_columns=bcols))
+                    prefix = cols == ALL_COLS[:len(cols)]
                     return ("write:values-not-by-column-name" + ("" if not prefix else ":prefix-selection"),
-                            f"write_to_file columns {list(cols)}: rows {gr} but the values belonging to these columns are {er}",
+                            f"write_to_file columns {cols}: rows {gr} but the values belonging to these columns are {er}",
                             where)
+            if k == "g":
+                want = accessor_reference(op[1], ref.edges, nh, snap)
+                if not same(got, want):
+                    stale = any(isinstance(t_, tuple) and t_[0] == op[1] and same(t_[1], got) for t_ in earlier)
+                    show = (lambda v: v[1]["data"] if v[0] == "mat" else v[1])
+                    return (f"accessor:{name}" + (":stale" if stale else ""),
+                            f"{name}() returned {show(got)}; from the current edges / arrays it is {show(want)}" +
+                            ("; that is the value it had at an earlier output of this session" if stale else ""), where)
+            if tab is not None:
+                earlier.append(tab)
+            for code in GETTERS:
+                earlier.append((code, accessor_reference(code, ref.edges, nh, snap)))
+        # ---- no output / outcome / state may depend on the outputs made before
+        mytag = "ok" if raised is None else "err:" + H.EXC_KIND.get(type(raised), type(raised).__name__)
+        if k in OUTPUT_OPS and (mytag != otag or (raised is None and not same(got, oval))):
+            return (f"history-dependent-output:{name}",
+                    f"{name} on the long-lived object gave {mytag} {got if raised is None else ''}, the same call on an object "
+                    f"with the same history of operations but no earlier output gave {otag} {oval}", where)
+        if k not in OUTPUT_OPS and mytag != otag:
+            return (f"history-dependent-outcome:{name}",
+                    f"{name} on the long-lived object: {mytag}; on an object with the same history of operations but no "
+                    f"earlier output: {otag}", where)
+        try:
+            s1, s2 = attrs(h), attrs(twin)
+        except Exception:  # noqa: BLE001
+            s1 = s2 = None
+        if s1 is not None and not same(s1, s2):
+            diff = [k_ for k_ in s1 if not same(s1[k_], s2[k_])]
+            return (f"history-dependent-state:after-{name}",
+                    f"after {name} the arrays {diff} of the long-lived object differ from those of an object with the same "
+                    f"history of operations but no earlier output: {[s1[k_] for k_ in diff]} vs {[s2[k_] for k_ in diff]}", where)
     return None
 
 
@@ -480,9 +867,11 @@ def search(ctx, budget_s):
             ctx.violation(r[0], r[1], dict(input=case, detail=jsonable(r[2]), how_to_replay="./check C10 --replay <this file>"))
     limit = 20000 if ctx.thorough else 1500
     while time.time() - t0 < budget_s and n < limit:
-        ctor, edges, ops, adms = gen_history(rng)
+        if n % 2:       # sessions: outputs, a mutation (count-restoring round trips among them), outputs again
+            ctor, edges, ops, adms, _tags = gen_session(rng)
+        else:
+            ctor, edges, ops, adms = gen_history(rng)
         if n % 4 == 0:   # the sequences the statement names: write after averaging, scale after inserting a bin
-            ref_nh = sum(1 for o in ops if o[0] == "ah")
             ops = [o for o in ops if o[0] not in ("wr",)]
             adms = readmit(ctor, ops)
             if None not in adms:
@@ -493,7 +882,10 @@ def search(ctx, budget_s):
         r = oracle_c10(ctor, ops, adms)
         n += 1
         kinds = [o[0] for o in ops]
-        ctx.case(("oracle", tuple(edges), tuple(enc_op(o) for o in ops)), bool(SHAPE_OPS & set(kinds)))
+        pats = output_patterns(ops, adms)
+        for p_ in pats:
+            ctx.count(f"oracle-pattern/{p_}")
+        ctx.case(("oracle", tuple(edges), tuple(enc_op10(o) for o in ops)), bool(SHAPE_OPS & set(kinds)))
         if r and r[0] not in found:
             found.add(r[0])
             try:
@@ -532,8 +924,9 @@ def replay(ctx, path):
         ok, log = common.lake_build(common.obligations("C10")["driver_modules"])
         if not ok:
             raise RuntimeError("lake build of the driver failed")
-        out = common.run_driver("C10", [enc_case(edges, ops)])[0]
-        diff = H.compare_history(ctor, ops, out)[0]
+        out = common.run_driver("C10", [enc_sess(edges, ops)])[0]
+        diffs = [compare_session(ctor, ops, out, mode)[0] for mode in ("silent", "attrs", "dense")]
+        diff = next((d for d in diffs if d), None)
         print(f"[C10] model vs code on this input: {'agree' if diff is None else diff}")
     except Exception as e:  # noqa: BLE001
         print(f"[C10] driver not available: {e}")
